@@ -318,6 +318,11 @@ impl serde::Serialize for SerdeCalls<'_> {
                     _ => s.serialize_str(x),
                 }
             }
+            Value::Array(a) if (h >> 12) % 3 == 0 && !a.is_empty() && a.iter().all(|x| x.as_u64().map_or(false, |u| u <= 255)) => {
+                // a byte string
+                let bytes: Vec<u8> = a.iter().map(|x| x.as_u64().unwrap_or(0) as u8).collect();
+                s.serialize_bytes(&bytes)
+            }
             Value::Array(a) => match pick {
                 0 => {
                     let mut t = s.serialize_tuple(a.len())?;
